@@ -75,6 +75,9 @@ type Edge struct {
 	Text   string // the $ref value
 	Form   string // syntactic form, for coverage statistics
 	Dangle string // kind of dangling reference
+	// SiblingID: draft-07 only. An "$id" written beside the "$ref"; draft-07 says that every
+	// keyword beside $ref is ignored, so it must neither change a base nor declare an anchor.
+	SiblingID string
 }
 
 var slotName = [2]string{"n", "m"}
@@ -319,6 +322,15 @@ func GenUniverse(c *Ctx, o UniOpts) *Universe {
 			for try := 0; try < 3 && n.InPlace == nil; try++ {
 				if e := u.makeEdge(c, n, 2, leaves[c.W(len(leaves))]); e != nil {
 					n.InPlace = e
+				}
+			}
+		}
+	}
+	if u.Draft7 {
+		for _, n := range u.Nodes {
+			for _, e := range []*Edge{n.Next[0], n.Next[1]} {
+				if e != nil && c.W(3) == 0 {
+					e.SiblingID = pick(c, []string{"#foo", "#bar", "#baz", "#nosuch", "ignored.json", "http://ignored.test/x.json"})
 				}
 			}
 		}
@@ -634,7 +646,11 @@ func (u *Universe) renderNode(n *Node) map[string]any {
 	}
 	for s, e := range n.Next {
 		if e != nil {
-			props[slotName[s]] = map[string]any{"$ref": e.Text}
+			ro := map[string]any{"$ref": e.Text}
+			if e.SiblingID != "" {
+				ro["$id"] = e.SiblingID
+			}
+			props[slotName[s]] = ro
 		}
 	}
 	o["properties"] = props
